@@ -38,6 +38,11 @@ JudgeSig(e) ==
       lv == TreeLevels(k.hf, k.leaves, PubSeed(x))
   IN When(e.sig # Signature(k.hf, k.h, x, lv, e.idx, e.msg), "signature is not the one the scheme's equations give for (seed, index, message)")
 
+JudgeSigHead(e) ==
+  When(e.head # SignatureHead(e.hf, Exp(e), e.root, e.idx, e.msg),
+       "index, randomiser and WOTS part of the signature are not the ones the scheme's equations give for (seed, index, message)")
+  \o When(e.pkseed # PubSeed(Exp(e)), "PUB_SEED in the public key is not the one expanded from the seed")
+
 JudgeSame(e) ==
   When(~e.same16, "Verify and VerifyWithCustomWOTSParamW(w = 16) disagree")
   \o When(~e.deterministic, "two constructions from the same seed and parameters gave different keys, addresses or signatures")
@@ -46,6 +51,7 @@ JudgeSame(e) ==
 Judge(e) ==
   CASE e.ev = "key" -> JudgeKey(e)
     [] e.ev = "sig" -> JudgeSig(e)
+    [] e.ev = "sighead" -> JudgeSigHead(e)
     [] e.ev = "same" -> JudgeSame(e)
     [] OTHER -> <<"unknown event">>
 \* rows the library recorded that failed the audit, and oracle fall-backs, are reported by the driver
